@@ -49,3 +49,15 @@ Print Assumptions C05_elements_are_independent.
 Theorem C05_engine_computes_semantics : forall m s dat d, run m s dat d = sem_run m s dat d.
 Proof. exact run_is_sem_run. Qed.
 Print Assumptions C05_engine_computes_semantics.
+
+(** with PostTransforms on the catching node: still never an issue (their errors are swallowed too),
+    and they run exactly when no issue existed before the node was reached — whether or not the Catch
+    fired, whichever failure it swallowed — on the value the node ends up with (the catch value when
+    it fired) *)
+Theorem C05_catch_with_transforms : forall m p dat d e0 c, p_catch p = Some c ->
+  let v := snd (sem_prim m (without_pts p) dat d e0) in
+  rerrored (fst (sem_prim m p dat d e0)) = false
+  /\ snd (sem_prim m p dat d e0) =
+     if e0 then v else snd (sem_pts_loop (fun q e => mk_unknown_issue q (dtype_of (p_kind p)) e) true (p_pts p) v).
+Proof. exact catch_with_transforms. Qed.
+Print Assumptions C05_catch_with_transforms.
